@@ -328,6 +328,10 @@ class Program:
             if imp[0] == 'mod':
                 return Ext(imp[1])
             sub = imp[1] + '.' + imp[2] if imp[1] else imp[2]
+            if imp[1] in self.modules:
+                pm = self.modules[imp[1]]
+                if imp[2] in pm.funcs or imp[2] in pm.imports or imp[2] in pm.assigns or imp[2] in pm.classes:
+                    return self.resolve_global(imp[1], imp[2], _seen)
             if sub in self.modules:
                 return ('module', sub)
             if imp[1] in self.modules:
